@@ -197,11 +197,11 @@ fn controller(cfg: &'static Cfg, ld: Arc<Loaded>, cap: usize, bps: Vec<usize>, c
                 let (tx, rx) = sync_channel(cap);
                 let r = ctx.run(cfg.rule, tx);
                 match r {
-                    Ok(()) => {}
+                    // as in main.rs: the previous receiver is replaced (dropped) only after run() returned Ok
+                    Ok(()) => *sh.rx.lock().unwrap() = Some(rx),
                     Err(DebuggerError::PreviousRunPanic(_)) => sh.obs.lock().unwrap().push("run=panic".to_string()),
                     Err(e) => sh.obs.lock().unwrap().push(format!("runerr:{}", esc(&e.to_string()))),
                 }
-                *sh.rx.lock().unwrap() = Some(rx); // the previous receiver is dropped only now
             }
             Cmd::Cont => {
                 let o = match ctx.cont() {
@@ -210,6 +210,7 @@ fn controller(cfg: &'static Cfg, ld: Arc<Loaded>, cap: usize, bps: Vec<usize>, c
                 sh.obs.lock().unwrap().push(format!("cont={}", o));
             }
             Cmd::Recv => {
+                let mut abandoned = false;
                 let o = match sh.rx.lock().unwrap().as_ref() {
                     None => "norx".to_string(),
                     Some(rx) => {
@@ -220,12 +221,13 @@ fn controller(cfg: &'static Cfg, ld: Arc<Loaded>, cap: usize, bps: Vec<usize>, c
                                 Ok(ev) => break show_event(&ev, &ld),
                                 Err(RecvTimeoutError::Disconnected) => break "disc".to_string(),
                                 Err(RecvTimeoutError::Timeout) =>
-                                    if is_free() || t0.elapsed() > Duration::from_millis(3000) { break "TIMEOUT".to_string() },
+                                    if is_free() { abandoned = true; break String::new() }
+                                    else if t0.elapsed() > Duration::from_millis(3000) { break "TIMEOUT".to_string() },
                             }
                         }
                     }
                 };
-                sh.obs.lock().unwrap().push(format!("recv={}", o));
+                if !abandoned { sh.obs.lock().unwrap().push(format!("recv={}", o)); }
             }
             Cmd::Add(r) => ctx.add_breakpoint(ld.names[r].clone()),
             Cmd::Del(r) => ctx.delete_breakpoint(&ld.names[r]),
@@ -269,6 +271,7 @@ fn new_epoch(free: bool) {
 
 /// returns (observation, timed_out)
 fn force(cfg: &'static Cfg, ld: &Arc<Loaded>, cap: usize, bps: &[usize], cmds: &[Cmd], sched: &str) -> (String, bool) {
+    let t_case = Instant::now();
     new_epoch(false);
     let sh = Arc::new(Shared { rx: Mutex::new(None), obs: Mutex::new(Vec::new()), finished: Mutex::new(false), cleaned: Mutex::new(false) });
     let (ld2, sh2, bps2, cmds2) = (Arc::clone(ld), Arc::clone(&sh), bps.to_vec(), cmds.to_vec());
@@ -295,6 +298,7 @@ fn force(cfg: &'static Cfg, ld: &Arc<Loaded>, cap: usize, bps: &[usize], cmds: &
         let dead = with_gate(|g| g.lanes[lane].dead);
         trace.push(format!("{}:{}", ch, match at { Some(p) => p, None => if dead { "dead" } else if done { if lane == C { "end" } else { "done" } } else { "?" } }));
     }
+    let t_sched = t_case.elapsed();
     // final status: did the controller get through its commands?  if not, is anything able to move?
     let fin = *sh.finished.lock().unwrap();
     let status = if timed_out { "TIMEOUT".to_string() } else if fin { "FIN".to_string() } else {
@@ -307,6 +311,7 @@ fn force(cfg: &'static Cfg, ld: &Arc<Loaded>, cap: usize, bps: &[usize], cmds: &
         let (c_at, p_at) = with_gate(|g| (g.lanes[C].at, g.lanes[P].at));
         if moved { format!("LIVE({:?},{:?})", c_at, p_at) } else { "HANG".to_string() }
     };
+    let t_status = t_case.elapsed();
     // clean-up: open the gates, drain whatever channel the parsing thread may be blocked on
     with_gate(|g| g.free = true);
     CV.notify_all();
@@ -316,6 +321,7 @@ fn force(cfg: &'static Cfg, ld: &Arc<Loaded>, cap: usize, bps: &[usize], cmds: &
         wait_until(1, |_| false);
     }
     if *sh.cleaned.lock().unwrap() { let _ = th.join(); }
+    if std::env::var("C17_TIME").is_ok() { eprintln!("schedule {:?} status {:?} cleanup {:?} steps {}", t_sched, t_status - t_sched, t_case.elapsed() - t_status, sched.len()); }
     let obs = sh.obs.lock().unwrap().join(",");
     (format!("{}|{}|{}", trace.join(" "), obs, status), timed_out)
 }
